@@ -68,7 +68,10 @@ func ToItem(v Val) *types.Item {
 		s := v.S
 		return &types.Item{S: &s}
 	case "N":
-		s := nd.Itoa(v.N)
+		s := v.NTxt
+		if s == "" {
+			s = nd.Itoa(v.N)
+		}
 		return &types.Item{N: &s}
 	case "BOOL":
 		b := v.Bool
@@ -123,4 +126,55 @@ func ToItems(m map[string]Val, names []string) map[string]*types.Item {
 		}
 	}
 	return out
+}
+
+// Numerals: the same small integers written in different valid notations.
+var Numerals = []Val{
+	{Kind: "N", N: 0, NTxt: "0"}, {Kind: "N", N: 7, NTxt: "7"}, {Kind: "N", N: -3, NTxt: "-3"},
+	{Kind: "N", N: 10, NTxt: "10.0"}, {Kind: "N", N: 10, NTxt: "1e1"}, {Kind: "N", N: 0, NTxt: "-0"}, {Kind: "N", N: 5, NTxt: "005"},
+}
+
+// GenTree draws an attribute-value tree: any of the ten types, containers nested up to depth levels with
+// 0..width children, including the boundary members (empty string, empty binary, false, empty list/map,
+// single-element sets).
+func GenTree(name string, depth, width int) Val {
+	leaf := []string{"S", "N", "B", "BOOL", "NULL", "SS", "NS", "BS"}
+	n := len(leaf)
+	if depth > 0 {
+		n += 2
+	}
+	k := nd.Choice(name+".kind", n)
+	if k < len(leaf) {
+		switch leaf[k] {
+		case "S":
+			return Val{Kind: "S", S: nd.StringN(name+".s", nd.Choice(name+".slen", 3))}
+		case "N":
+			return Numerals[nd.Choice(name+".num", len(Numerals))]
+		case "B":
+			return Val{Kind: "B", B: nd.Bytes(name+".bin", nd.Choice(name+".blen", 3))}
+		case "BOOL":
+			return Val{Kind: "BOOL", Bool: nd.Bool(name + ".b")}
+		case "NULL":
+			return Val{Kind: "NULL"}
+		case "SS":
+			return Val{Kind: "SS", SS: []string{nd.StringN(name+".ss", nd.Choice(name+".sslen", 2))}}
+		case "NS":
+			return Val{Kind: "NS", NS: []int64{7}}
+		case "BS":
+			return Val{Kind: "BS", BS: [][]byte{nd.Bytes(name+".bs", 1)}}
+		}
+	}
+	cnt := nd.Choice(name+".children", width+1)
+	if k == len(leaf) {
+		l := []Val{}
+		for i := 0; i < cnt; i++ {
+			l = append(l, GenTree(name+"."+string(rune('0'+i)), depth-1, width))
+		}
+		return Val{Kind: "L", L: l}
+	}
+	m := map[string]Val{}
+	for i := 0; i < cnt; i++ {
+		m[string(rune('x'+i))] = GenTree(name+"."+string(rune('x'+i)), depth-1, width)
+	}
+	return Val{Kind: "M", M: m}
 }
